@@ -27,7 +27,7 @@ ASSUMPTIONS = [
     'and 2D files regenerate headers from whole arrays; load_all_headers=True asks for whole arrays',
     'the no-byte-twice rule is applied to single read calls, not to accessor slice expressions (a slice is a '
     'sequence of reads) and not to open',
-    'histories use the default chunk-cache size only (C07 does not quantify over it)',
+    'readers with chunk-cache sizes 1, 2 and default take part: the needed set bounds what any of them may fetch',
     'exact equality of touched and needed blocks is demanded for the first call that reaches a freshly opened '
     'reader (certainly cold); later calls must stay inside the needed set',
 ]
@@ -214,6 +214,10 @@ def inside(lo, hi, ranges):
     return False
 
 
+def overlaps(lo, hi, ranges):
+    return any(lo < b and a < hi for a, b in ranges)
+
+
 def readers_kind(opener):
     return 'xarray' if opener == 'xarray' else readers.OPENERS[opener]['kind']
 
@@ -228,20 +232,18 @@ def check_op(fm, op, opener, reqs, state, slot_key):
     pre_key = ('preload-done',) + tuple(slot_key[:2])
     if op[0] == 'open':
         hdr = L.header_range()
-        n_data = 0
+        got = state.setdefault('pre_bytes', {}).setdefault(pre_key, [])
         for lo, hi in rr:
             if hi <= hdr[1]:
                 continue
-            if preload and (lo, hi) == data_rng:
-                n_data += 1
+            if preload and data_rng[0] <= lo and hi <= data_rng[1]:
+                # "with preload the data section is fetched exactly once": in one request or in disjoint pieces
+                if overlaps(lo, hi, got):
+                    return 'preload-not-once', (f'open with preload requested data bytes [{lo},{hi}) that it had '
+                                                f'already fetched'), None
+                got.append((lo, hi))
                 continue
             return 'open-outside-header', f'open via {opener} requested bytes [{lo},{hi}) outside the header blocks', None
-        if preload:
-            # "fetched exactly once and never again": at open, or (a lazy implementation) by the first call
-            if n_data > 1:
-                return 'preload-not-once', f'open with preload fetched the data section {n_data} times', None
-            if n_data == 1:
-                state.setdefault('preloaded', set()).add(pre_key)
         return None, '', ('open', backend, preload)
     if op[0] != 'call':
         return None, '', None
@@ -255,12 +257,16 @@ def check_op(fm, op, opener, reqs, state, slot_key):
     foot = []
     for lo, hi in rr:
         if lo >= L.data_start and hi <= L.data_end:
-            if preload and (lo, hi) == data_rng and pre_key not in state.setdefault('preloaded', set()):
-                state['preloaded'].add(pre_key)          # lazy preload: the one fetch of the whole section
+            if preload:
+                # a preload reader may fetch any part of the data section (at open, or lazily later), but each byte
+                # at most once in its lifetime: "fetched exactly once and never again"
+                got = state.setdefault('pre_bytes', {}).setdefault(pre_key, [])
+                if overlaps(lo, hi, got):
+                    return 'preload-refetch', (f'{call} on a preload reader requested data bytes [{lo},{hi}) that this '
+                                               f'reader had already fetched'), None
+                got.append((lo, hi))
                 touched.update(need['blocks'])
                 continue
-            if preload:
-                return 'preload-refetch', f'{call} on a preload reader requested data bytes [{lo},{hi})', None
             ks = range((lo - L.data_start) // 4096, (hi - 1 - L.data_start) // 4096 + 1)
             for k in ks:
                 if k not in need['blocks']:
@@ -314,7 +320,12 @@ def check_op(fm, op, opener, reqs, state, slot_key):
     return None, '', key
 
 
-def one_run(ctx, run, ops=None, trace=None, entry=None):
+# one history in eight also pre-empts at source-line level (an unlocked read-modify-write between two pool
+# workers duplicates a request only when one of them is descheduled between two lines)
+PREEMPT_CHOICES = [0, 0, 0, 0, 0, 0, 0, 0.02]
+
+
+def one_run(ctx, run, ops=None, trace=None, entry=None, preempt='gen'):
     seed = ctx['seed']
     wl = core.stream(seed, run, 'workload')
     e = entry or ctx['lib'][wl.randrange(len(ctx['lib']))]
@@ -322,9 +333,15 @@ def one_run(ctx, run, ops=None, trace=None, entry=None):
     xr_ok = wl.random() < 0.1
     n_ops = wl.choice([4, 6, 10, 16, 24])
     policy = wl.choice(core.POLICIES)
+    flavour = 'traces' if wl.random() < 0.15 else None
+    if flavour:
+        n_ops = wl.choice([16, 24, 40])
+    pre_p = wl.choice(PREEMPT_CHOICES)
+    if preempt == 'gen':
+        preempt = [pre_p, f'{seed}:{run}'] if pre_p else None
     if ops is None:
         ops = histories.gen_history(wl, m, n_ops, reader_openers=histories.READER_OPENERS_C07,
-                                    emu_openers=histories.EMU_OPENERS_C07, xarray_ok=xr_ok)
+                                    emu_openers=histories.EMU_OPENERS_C07, xarray_ok=xr_ok, flavour=flavour)
     fm = FileModel(e['data'], m)
     chooser = core.ReplayChooser(trace) if trace is not None else \
         core.make_chooser(policy, core.stream(seed, run, 'schedule'), est_steps=300)
@@ -339,6 +356,10 @@ def one_run(ctx, run, ops=None, trace=None, entry=None):
             return
         if op[0] == 'open':
             gen[op[1]] = gen.get(op[1], 0) + 1
+        if op[0] == 'fcall':
+            state['warm'].add((op[1], gen.get(op[1], 0), route_of(op[2])))
+            state['warm'].add((op[1], gen.get(op[1], 0)))
+            return
         if op[0] == 'call':
             if out[0] == 'exc':
                 counts['call_raised'] += 1
@@ -362,7 +383,11 @@ def one_run(ctx, run, ops=None, trace=None, entry=None):
             keys.add(key)
         if v:
             found.append((i, v, what))
-    outcomes, fs, r = histories.execute(e['data'], ops, chooser, observer=observer)
+    outcomes, fs, r = histories.execute(e['data'], ops, chooser, observer=observer, preempt=preempt)
+    if preempt:
+        counts['histories_with_line_level_preemption'] += 1
+    if flavour:
+        counts['trace_walk_histories'] += 1
     rec = {'run': run, 'file': e['name'], 'layout': f"{m['kind']}/{m['layout']}", 'ops': len(ops), 'keys': sorted(keys),
            'counts': dict(counts), 'violation': None, 'ed': r.sched.digest(), 'requests': len(fs.reqlog),
            'simtime': r.sched.clock}
@@ -372,7 +397,8 @@ def one_run(ctx, run, ops=None, trace=None, entry=None):
         i, v, what = found[0]
         name = ops[i][2][0] if ops[i][0] == 'call' else ops[i][0]
         rec['violation'] = {'signature': f"{m['layout']}|{m['kind']}|{name}|{v}", 'what': what, 'file': e['name'],
-                            'spec': e['spec'], 'ops': ops[:i + 1], 'trace': list(r.sched.trace), 'index': i}
+                            'spec': e['spec'], 'ops': ops[:i + 1], 'trace': list(r.sched.trace), 'index': i,
+                            'preempt': preempt}
     return rec
 
 
@@ -380,7 +406,7 @@ def replay_doc(doc, data):
     m = filelib.read_meta(data)
     e = {'name': doc['file'], 'data': data, 'meta': m, 'spec': doc['spec']}
     rec = one_run({'seed': doc.get('seed', 0), 'lib': [e]}, doc.get('run', 0), ops=[list(o) for o in doc['ops']],
-                  trace=doc['trace'], entry=e)
+                  trace=doc['trace'], entry=e, preempt=doc.get('preempt'))
     v = rec['violation']
     return (v['signature'], v['what']) if v else (None, '')
 
@@ -434,7 +460,7 @@ def main(tier, seed):
 
 def _main(tier, seed, scratch, t0):
     quick = tier == 'quick'
-    lib = filelib.build(seed, scratch, n_random=8 if quick else 80)
+    lib = filelib.build(seed, scratch, n_random=8 if quick else 80, big=True)
     ctx = {'seed': seed, 'lib': lib}
     for run in range(10 ** 6, 10 ** 6 + (6 if quick else 30)):
         a, b = one_run(ctx, run), one_run(ctx, run)
